@@ -20,6 +20,8 @@ type avcConfCase struct {
 	PPS         []nalgen.AVCPPSTree `json:"pps"`
 	IncludePS   bool                `json:"include_ps"`
 	SampleEntry string              `json:"sample_entry"` // avc1 | avc3
+	// EncodeBoxes: also encode the avcC box and the init segment made by SetAVCDescriptor, decode, compare again.
+	EncodeBoxes bool `json:"encode_boxes"`
 }
 
 // avcRefDecConfRec serialises AVCDecoderConfigurationRecord (ISO/IEC 14496-15 5.3.3.1.2) with lengthSizeMinusOne=3.
@@ -181,9 +183,19 @@ func checkAVCConf(c avcConfCase) *harness.Fail {
 		return harness.Failf("C15|mp4.AvcCBox.Encode|error", "%v", err)
 	}
 	box := buf.Bytes()
-	if len(box) < 8+len(ref) || string(box[4:8]) != "avcC" || !bytes.Equal(box[8:8+len(ref)], ref) ||
-		int(box[0])<<24|int(box[1])<<16|int(box[2])<<8|int(box[3]) != len(box) || (extSure && len(box) != 8+len(ref)) {
-		return harness.Failf("C15|mp4.AvcCBox.Encode|bytes differ from reference box", "encoded %x, reference payload %x", box, ref)
+	if c.EncodeBoxes {
+		// size field == length; payload == reference record; for the profiles where the editions of 14496-15 differ
+		// about the four trailing bytes, they are either absent or hold the SPS values
+		ok := len(box) >= 8+len(ref) && string(box[4:8]) == "avcC" && bytes.Equal(box[8:8+len(ref)], ref) &&
+			int(box[0])<<24|int(box[1])<<16|int(box[2])<<8|int(box[3]) == len(box)
+		if ok && len(box) != 8+len(ref) {
+			full := avcRefDecConfRec(byte(s.Profile), byte(s.ProfileCompatibility), byte(s.Level), recS, recP, true,
+				avcChromaFormatIDC(s), byte(s.BitDepthLumaMinus8), byte(s.BitDepthChromaMinus8))
+			ok = !extSure && extStruct && bytes.Equal(box[8:], full)
+		}
+		if !ok {
+			return harness.Failf("C15|mp4.AvcCBox.Encode|bytes differ from reference box", "encoded %x, reference payload %x", box, ref)
+		}
 	}
 	// 5. SetAVCDescriptor
 	if c.SampleEntry == "avc1" && !c.IncludePS {
@@ -220,6 +232,9 @@ func checkAVCConf(c avcConfCase) *harness.Fail {
 	if f := chk("SetAVCDescriptor", trak, extStruct); f != nil {
 		return f
 	}
+	if !c.EncodeBoxes {
+		return nil
+	}
 	buf.Reset()
 	if err := init.Encode(&buf); err != nil {
 		return harness.Failf("C15|mp4.InitSegment.Encode|error", "%v", err)
@@ -250,6 +265,8 @@ func TestAVCConf(t *testing.T) {
 		}
 		c.IncludePS = avcChance(rt, 3, 4, "includePS")
 		c.SampleEntry = rapid.SampledFrom([]string{"avc1", "avc3"}).Draw(rt, "sample-entry")
+		p0 := c.SPS[0].S.Profile
+		c.EncodeBoxes = !avcAvoid("avc-conf-avcc-size-encode-mismatch", p0 != 66 && p0 != 77 && p0 != 88 && p0 != 100 && p0 != 110 && p0 != 122)
 		cl := avcSPSClasses(&c.SPS[0])
 		cl = append(cl, fmt.Sprintf("avc-conf-%s-ps%v", c.SampleEntry, c.IncludePS), fmt.Sprintf("avc-conf-nsps%d-npps%d", nSPS, nPPS))
 		raw, _ := json.Marshal(c)
